@@ -426,14 +426,19 @@ pub fn recover_via_executable(img: &DirImage, seed: u64, known_ids: &[Uuid]) -> 
     let dir = scratch.path().join("data");
     write_dir_image(&dir, img);
     {
-        let run = crate::ebin::start_plain(&dir).map_err(|e| format!("database does not open through the executable: {e}"))?;
+        // only an executable that *exits* on this directory has failed to open it; one that is
+        // slow to come up on a loaded machine is the harness's problem, not a verdict
+        let mut run = crate::ebin::start_plain(&dir).map_err(|e| if e.contains("exited at once") { format!("database does not open through the executable: {e}") } else { format!("MACHINERY: {e}") })?;
         for c in 0..2u8 {
             let cu = client_uuid(seed, c);
             for path in [format!("/v1/client/get-child-version/{}", Uuid::nil()), "/v1/client/snapshot".to_string()] {
                 match crate::ebin::http_raw(&run.addrs[0], "GET", &path, &[("X-Client-Id", cu.to_string())], None, false) {
                     Ok(r) if r.status >= 500 => return Err(format!("the restarted executable answered {} to GET {path}", r.status)),
                     Ok(_) => {}
-                    Err(e) => return Err(format!("the restarted executable did not answer GET {path}: {e}")),
+                    Err(e) => {
+                        let gone = matches!(run.child.try_wait(), Ok(Some(_)));
+                        return Err(if gone { format!("the restarted executable died on GET {path}: {e}") } else { format!("MACHINERY: the restarted executable did not answer GET {path} in time: {e}") });
+                    }
                 }
             }
         }
@@ -663,6 +668,7 @@ pub fn explore(rec: &Recorded, p: &CrashParams, part: usize, parts: usize) -> (C
                                 point,
                                 image: label.clone(),
                             }),
+                            Err(m2) if m2.starts_with("MACHINERY:") => findings.push(CrashFinding { class: "machinery".into(), msg: format!("{m2} — {where_}"), point, image: label.clone() }),
                             Err(m2) => findings.push(CrashFinding {
                                 class: format!("executable-start-up-breaks-recovery|{}", label.split(' ').next().unwrap_or("")),
                                 msg: format!("the library recovers {:?} from this image, but through the real executable: {m2} — {where_}", summarize(&got)),
